@@ -53,8 +53,8 @@ Mutants (scratch copy with the candidate repair, 20 000 runs each = 1/3 of the q
   DESIGN  FSM accepts two chained requests ................. caught: model/verdict (9)
   own     guard checked after EventCond resolution (a recursive event that resolves to
           "no event" is dropped silently) .................. caught: not-refused/handler (427)
-  own     Repeat passes the original event on asynchronously caught: model/outputs (692),
-          model/verdict (440), stopped-without-cause (89)
+  own     Repeat passes the original event on asynchronously caught: model/outputs (777),
+          model/verdict (496), stopped-without-cause (101)
   own     FSM transition lock released on success only (needs: unknown event reported through
           an FSM in transition, then another event to it) .. caught: guard-left-set (1419),
           model/verdict (13)
